@@ -105,7 +105,7 @@ def _step(cur, seg):
 
 def generate(rng, tier):
     n = 1200 if tier == 'quick' else 12000
-    cases = []
+    cases = [{'kind': 'custom', 'i': i} for i in range(len(custom_scenarios()))]
     for _ in range(n):
         tg = TargetGen(rng)
         target = tg.value(rng.choice([2, 3, 3, 4]))
@@ -184,8 +184,76 @@ def _spec_of(case):
     return glom.Path(*parts)
 
 
+def custom_scenarios():
+    """user containers whose failing lookups raise their OWN exception objects — among them FALSY ones (an error carrying an empty
+    list of tried keys, with __len__; an error with __bool__ False): the failure is reported at that segment, whatever the object"""
+    import glom
+
+    class Unresolved(KeyError):
+        def __init__(self, key, tried=()):
+            KeyError.__init__(self, key)
+            self.tried = list(tried)
+
+        def __len__(self):
+            return len(self.tried)
+
+    class Quiet(AttributeError):
+        def __bool__(self):
+            return False
+
+    class Lazy(dict):
+        def __init__(self, d, tried):
+            dict.__init__(self, d)
+            self._tried = tried
+
+        def __missing__(self, key):
+            raise Unresolved(key, self._tried)
+
+    class Shy:
+        def __init__(self, **kw):
+            self.__dict__.update(kw)
+
+        def __getattr__(self, name):
+            raise Quiet(name)
+    T = glom.T
+    out = []
+    for tried, tag in (((), 'falsy'), (('x',), 'truthy')):
+        mk = lambda tried=tried: {'a': Lazy({'c': 'leaf-c', 'b2': {'c': 1}}, tried)}  # noqa: E731
+        out += [('%s KeyError subclass, text' % tag, mk, 'a.b.c', 1, 'Unresolved'),
+                ('%s KeyError subclass, Path' % tag, mk, glom.Path('a', 'b', 'c'), 1, 'Unresolved'),
+                ('%s KeyError subclass, T' % tag, mk, T['a']['b']['c'], 1, 'Unresolved'),
+                ('%s KeyError subclass, last segment' % tag, mk, 'a.b', 1, 'Unresolved')]
+    mk2 = lambda: {'o': Shy(y=Shy(z=1))}  # noqa: E731
+    out += [('falsy AttributeError subclass, text', mk2, 'o.x.y', 1, 'Quiet'),
+            ('falsy AttributeError subclass, T', mk2, T['o'].x.y, 1, 'Quiet'),
+            ('falsy AttributeError subclass, deeper', mk2, 'o.y.q.z', 2, 'Quiet'),
+            ('control: present', mk2, 'o.y.z', None, None)]
+    return out
+
+
+def run_custom(case):
+    import glom
+    name, mk, spec, idx, inner = custom_scenarios()[case['i']]
+    try:
+        res = glom.glom(mk(), spec)
+        got = ('ok', None)
+    except glom.PathAccessError as e:
+        got = (e.part_idx, type(e.exc).__name__)
+    except Exception as e:
+        got = ('raised', type(e).__name__)
+    want = ('ok', None) if idx is None else (idx, inner)
+    if got != want:
+        return {'problems': ['custom lookup errors, %s: outcome %r, required %r (PathAccessError at the failing segment)' % (name, got, want)]}
+    return {'problems': []}
+
+
+_TRIV = None
+
+
 def run_impl(case):
     import glom
+    if case.get('kind') == 'custom':
+        return run_custom(case)
     r = Realiser()
     target = r.build(case['target'])
     glom.core.PATH_STAR = case.get('star', True)
@@ -206,6 +274,13 @@ def _part_coq(p):
 
 
 def coq_case(case, out):
+    global _TRIV
+    if case.get('kind') == 'custom':
+        # decided on the implementation side; the Coq side gets a small ordinary case with its real outcome
+        if _TRIV is None:
+            t = corpus()[0]
+            _TRIV = (t, run_impl(t))
+        return coq_case(*_TRIV)
     if case['style'] == 'text':
         spec = '(SText %s %s)' % (cbool(case.get('star', True)), cstr(case['text']))
     else:
@@ -223,6 +298,8 @@ def coq_case(case, out):
 
 
 def model_dump_term(case):
+    if case.get('kind') == 'custom':
+        return '0'
     return 'c01_model %s' % coq_case(case, {'ok': None})
 
 
@@ -242,6 +319,8 @@ def _kinds_met(case):
 
 
 def nontrivial(case, out):
+    if case.get('kind') == 'custom':
+        return True
     n, kinds = _kinds_met(case)
     if 'raise' in out:
         return out.get('part_idx', 0) >= 1
@@ -249,6 +328,8 @@ def nontrivial(case, out):
 
 
 def classify(case, out):
+    if case.get('kind') == 'custom':
+        return 'custom'
     if 'raise' in out:
         return 'raise:%s/%s@%s' % (out['raise'], out.get('inner'), min(out.get('part_idx', 0), 4))
     if 'ok' in out:
@@ -260,6 +341,8 @@ def direct_oracle(case, out):
     """property stated directly on the implementation: identity of the result; PathAccessError is catchable as the four
     classes; nothing after the failing segment is touched (logging dicts)."""
     import glom
+    if case.get('kind') == 'custom':
+        return '; '.join(out['problems']) if out.get('problems') else None
     if 'raise' in out:
         if out['raise'] == 'PathAccessError':
             need = {'GlomError', 'KeyError', 'IndexError', 'AttributeError'}
@@ -274,6 +357,8 @@ def python_snippet(case):
 
 
 def shrink(case, still_fails):
+    if case.get('kind') == 'custom':
+        return case
     cur = case
     changed = True
     while changed:
